@@ -62,12 +62,25 @@ func limitedReadAll(reader io.Reader) ([]byte, error) {
 	return result, err
 }
 
+// checkRedirect is the redirect policy of the HTTP clients created here: like the default policy of net/http (at most 10 redirects),
+// but in strict mode a redirect must not leave HTTPS, just like the initial request.
+func checkRedirect(req *http.Request, via []*http.Request) error {
+	if StrictMode && req.URL.Scheme != "https" {
+		return errors.New("strictmode is enabled, but redirect is not over HTTPS")
+	}
+	if len(via) >= 10 {
+		return errors.New("stopped after 10 redirects")
+	}
+	return nil
+}
+
 // New creates a new HTTP client with the given timeout.
 func New(timeout time.Duration) *StrictHTTPClient {
 	return &StrictHTTPClient{
 		client: &http.Client{
-			Transport: SafeHttpTransport,
-			Timeout:   timeout,
+			Transport:     SafeHttpTransport,
+			Timeout:       timeout,
+			CheckRedirect: checkRedirect,
 		},
 	}
 }
@@ -77,8 +90,9 @@ func New(timeout time.Duration) *StrictHTTPClient {
 func NewWithCache(timeout time.Duration) *StrictHTTPClient {
 	return &StrictHTTPClient{
 		client: &http.Client{
-			Transport: DefaultCachingTransport,
-			Timeout:   timeout,
+			Transport:     DefaultCachingTransport,
+			Timeout:       timeout,
+			CheckRedirect: checkRedirect,
 		},
 	}
 }
@@ -91,14 +105,27 @@ func NewWithTLSConfig(timeout time.Duration, tlsConfig *tls.Config) *StrictHTTPC
 	transport.TLSClientConfig = tlsConfig
 	return &StrictHTTPClient{
 		client: &http.Client{
-			Transport: transport,
-			Timeout:   timeout,
+			Transport:     transport,
+			Timeout:       timeout,
+			CheckRedirect: checkRedirect,
 		},
 	}
 }
 
 type StrictHTTPClient struct {
 	client *http.Client
+}
+
+// SameOriginRedirectsOnly makes the client refuse redirects to another scheme or host than those of the original request.
+// To be used when the response must come from the origin that is being addressed (e.g. did:web resolution).
+func (s *StrictHTTPClient) SameOriginRedirectsOnly() *StrictHTTPClient {
+	s.client.CheckRedirect = func(req *http.Request, via []*http.Request) error {
+		if req.URL.Scheme != via[0].URL.Scheme || req.URL.Host != via[0].URL.Host {
+			return fmt.Errorf("redirect to other origin refused: %s://%s", req.URL.Scheme, req.URL.Host)
+		}
+		return checkRedirect(req, via)
+	}
+	return s
 }
 
 func (s *StrictHTTPClient) Do(req *http.Request) (*http.Response, error) {
